@@ -1186,16 +1186,6 @@ theorem argv_content_disposition_contained (modes : List Mode) (maxLen : Int)
   | .inl h => .inl h
   | .inr ⟨comp, h1, h2, _⟩ => .inr ⟨comp, h1, h2⟩
 
-/-- **get_filename_raises_counterexample** (known finding `namer-raises` / `urlsplit`):
-`get_filename` is NOT total on the urls `URLInfo.url` produces.  `[` and `]` in the
-user name or password are not percent-encoded by `wpull/url.py`, and the interpreter's
-`urlsplit` (called again by `url_to_dir_parts` / `url_to_filename`) refuses a netloc
-with an unmatched bracket: no local path is chosen for `http://[u@h/`.  Containment is
-not affected (`get_filename_contained` speaks about every path that IS returned). -/
-theorem get_filename_raises_counterexample :
-    getFilename ⟨⟨.unix, true, true, .none, 0⟩, lit "dl", lit "index.html", true, 0, false, true⟩
-      (fun c => [c]) (fun _ => []) ⟨true, true⟩ false (lit "http://[u@h/") = .error .ValueError := by decide
-
 /-! ## non-vacuity -/
 
 example : (optionsToCfg [.ascii, .lower] 160).os = .unix := by decide
@@ -1217,6 +1207,10 @@ example : getFilename ⟨⟨.unix, true, true, .none, 0⟩, lit "dl", lit "index
     (fun c => [c]) (fun _ => []) ⟨true, true⟩ false (lit "http://h:81/x/y?q=/")
     = .ok (lit "dl/h:81/x/y/y?q=%2F") := by decide
 example : dirname (lit "dl//h/a.txt") = lit "dl//h" := by decide
+-- the user-info bracket case (repaired in wpull/url.py, `fixed:` C15 858ec21): the normal form of
+-- `http://[u@h/` is now `http://%5Bu@h/`, for which a contained path is chosen
+example : getFilename ⟨⟨.unix, true, true, .none, 0⟩, lit "dl", lit "index.html", true, 0, false, true⟩
+    (fun c => [c]) (fun _ => []) ⟨true, true⟩ false (lit "http://%5Bu@h/") = .ok (lit "dl/h/index.html") := by decide
 example : HasScheme (lit "ftp://h/a") := ⟨102, lit "tp", lit "h/a", by decide, by decide, by decide⟩
 example : renameCD ⟨.unix, true, true, .none, 0⟩ (fun c => [c]) (fun _ => []) (lit "dl/h/a.txt") true true
     (some (lit "\"../../etc/passwd\"")) (some (lit "../../etc/passwd")) = .ok (lit "dl/h/..%2F..%2Fetc%2Fpasswd") := by decide
